@@ -745,7 +745,7 @@ func TestVerifC14(t *testing.T) {
 			e.serve(ind, r.Intn(n), r.Bool(), 1+r.Intn(2), "")
 		}
 		// multi-entry ranges: clean, and with a fault at the k-th storage/cache call (mostly on a non-first leaf)
-		for k := 0; k < verifkit.N(16, 200) && n > 3; k++ {
+		for k := 0; k < verifkit.N(10, 200) && n > 3; k++ {
 			ln := 3 + r.Intn(5)
 			a := r.Intn(n - 2)
 			b := a + ln - 1
@@ -896,7 +896,7 @@ func TestVerifC14(t *testing.T) {
 			e.serve(ind, i, r.Bool(), 0, what)
 		}
 		// ranges over the damaged store: the damaged chain is usually not the first of the range
-		for k := 0; k < verifkit.N(20, 250) && n > 3; k++ {
+		for k := 0; k < verifkit.N(12, 250) && n > 3; k++ {
 			ln := 3 + r.Intn(5)
 			a := r.Intn(n - 2)
 			b := a + ln - 1
@@ -1143,7 +1143,7 @@ func (e *c14Env) concurrent(cc c14CacheCfg, pool []c14Sub) {
 	want := sync.Map{} // leaf value -> extra data of the in-backend mode
 	stop := make(chan struct{})
 	writers, readers := 3, 3
-	perWriter := verifkit.N(8, 100)
+	perWriter := verifkit.N(6, 100)
 	for w := 0; w < writers; w++ {
 		rr := e.r.Fork()
 		wg.Add(1)
